@@ -161,7 +161,13 @@ class Model:
     def value(self, n):
         # None is a legitimate stored value (a user function may return it): present, not masked
         if not self.internal:
-            return None if n % 4 == 0 else f"v{n}"
+            if n % 4 == 0:
+                return None
+            if n % 7 == 3:
+                return (f"v{n}a", f"v{n}b")  # an element that is itself a sequence
+            if n % 7 == 5:
+                return np.array([n, n + 1])  # ... or an array (stored as one object)
+            return f"v{n}"
         arr = np.empty(self.internal, dtype=object)
         for j, idx in enumerate(np.ndindex(*self.internal)):
             arr[idx] = None if (n + j) % 5 == 0 else f"v{n}." + ".".join(map(str, idx))
@@ -176,7 +182,9 @@ class Model:
             if self.internal:
                 self.data[fk] = value
             else:
-                self.data[fk] = value
+                box = np.empty((), dtype=object)
+                box[()] = value  # keep sequences / arrays as ONE object element
+                self.data[fk] = box
             self.missing[fk] = False
 
     def masked(self):
